@@ -146,5 +146,5 @@ def files_only(snap):
 
 
 def run_case(case, tier):
-    ctx = explore.explore(make_harness(case, tier), max_paths=3000, time_budget_s=400)
+    ctx = explore.explore(make_harness(case, tier), max_paths=(3000 if tier == 'quick' else 120000), time_budget_s=(400 if tier == 'quick' else 3600))
     return driver.result_from_ctx(ctx)
